@@ -101,9 +101,10 @@ class Gen:
                             "params": row["params"], "no_overrides": row["noovr"], "tag": self.tag}
         return m
 
-    def case(self, row, steps=None):
-        cfg = {"v4": row["cf_v4"], "v6": row["cf_v6"], "transports": ENABLED_TRANSPORTS, "pblock": PBLOCK[row["pblock"]],
-               "share": row["share"], "covert": COVERT_POLICY, "geo_fail": row["geo_fail"]}
+    def case(self, row, steps=None, real=False):
+        cfg = {"v4": row["cf_v4"], "v6": row["cf_v6"], "transports": [1, 4] if real else ENABLED_TRANSPORTS,
+               "pblock": PBLOCK[row["pblock"]], "share": row["share"], "covert": COVERT_POLICY, "geo_fail": row["geo_fail"],
+               "real": real}
         return {"cfg": cfg, "live": row["live"], "steps": steps if steps is not None else [{"kind": "msg", "msg": self.msg(row)}],
                 "row": dict(row)}
 
@@ -166,6 +167,29 @@ def gen_cases(ctx):
         r.update(dict(zip(keys, tup)))
         r["libver"] = 3
         cases.append(dict(g.case(r), kind="table"))
+    # 3b. the composition with the REAL phantom selector (test/phantom_subnets.toml: generations 1, 2, 957) and the
+    #     real min (1) / prefix (4) transports instead of the scripted ones
+    def realrow(r):
+        r = dict(r)
+        r["gen"] = {1: 1, 2: 957, 3: 2, 4: 957}.get(r["gen"], r["gen"])
+        r["transport"] = {0: 1, 2: 4}.get(r["transport"], r["transport"])
+        r["params"] = {7: 1, 60: 1}.get(r["params"], r["params"])
+        return r
+    for b in BASES:
+        cases.append(dict(g.case(realrow(b), real=True), kind="real"))
+        for f in FACTORS:
+            for lv in LEVELS[f]:
+                if lv != b[f] and not (f == "rr" and lv in ("params", "portparams")):
+                    r = dict(b)
+                    r[f] = lv
+                    if quick and rng.random() < 0.5:
+                        continue
+                    cases.append(dict(g.case(realrow(r), real=True), kind="real"))
+    for tup in rng.sample(list(itertools.product(*[CORE[k] for k in keys])), 150 if quick else 3000):
+        r = dict(BASES[0])
+        r.update(dict(zip(keys, tup)))
+        r["libver"] = rng.choice([0, 2, 3, 4])
+        cases.append(dict(g.case(realrow(r), real=True), kind="real"))
     # 4. histories: the same registration again, and a second message after a rejected first one
     for b in BASES:
         for variant in range(6):
@@ -306,9 +330,13 @@ def expect_msg(cfg, live, tracked, m, o):
             why = "generation-unknown-or-no-subnet"
         if why is None and transport not in cfg["transports"]:
             why = "transport-not-enabled"
-        if why is None and not params_ok(tok):
+        if why is None and not (o["pok"] if cfg.get("real") else params_ok(tok)):
             why = "params"
-        port = drv_port(libver, tok, sel["rand"]) if why is None else None
+        if cfg.get("real"):
+            pv = o["port4"] if fam == 4 else o["port6"]
+            port = (pv if pv >= 0 else None) if why is None else None
+        else:
+            port = drv_port(libver, tok, sel["rand"]) if why is None else None
         if why is None and port is None:
             why = "port"
         phantom = ovr if ovr is not None else sel["ip"]
@@ -403,9 +431,13 @@ def g_sel(s):
     return "(Some %s)" % g_hex(s["ip"]) if s["ok"] else "None"
 
 
-def g_oracles(res, live, geo_fail):
-    return ("{| o_sel4 := %s; o_sel6 := %s; o_rand4 := %s; o_rand6 := %s; o_geo := %s; o_covert := %s; o_live := %s |}") % (
-        g_sel(res["sel4"]), g_sel(res["sel6"]), gbool(res["sel4"]["rand"]), gbool(res["sel6"]["rand"]), gbool(not geo_fail),
+def g_oracles(res, live, geo_fail, real=False):
+    return ("{| o_sel4 := %s; o_sel6 := %s; o_rand4 := %s; o_rand6 := %s; o_real := %s; o_pok := %s; o_port4 := %s; "
+            "o_port6 := %s; o_geo := %s; o_covert := %s; o_live := %s |}") % (
+        g_sel(res["sel4"]), g_sel(res["sel6"]), gbool(res["sel4"]["rand"]), gbool(res["sel6"]["rand"]),
+        gbool(real), gbool(res.get("pok", False)),
+        gopt(res["port4"] if res.get("port4", -1) >= 0 else None, gN), gopt(res["port6"] if res.get("port6", -1) >= 0 else None, gN),
+        gbool(not geo_fail),
         "(Some %s)" % g_hex(res["covert_lit"]) if res["covert_ok"] else "None", gbool(live))
 
 
@@ -414,14 +446,16 @@ def g_regview(v):
                                          g_hex(v["covert"]), g_hex(v["regaddr"]))
 
 
-def g_share(s):
+def g_share(s, eff_tok=None):
+    if eff_tok is not None:
+        s = dict(s, params=eff_tok[0], has_params=eff_tok[0] is not None and s["has_params"])
     return "(%s, %s, %s, (%s, %s, %s), (%s, %s, %s), %s, %s, %s)" % (
         g_hex(s["secret"]), gN(s["source"]), g_hex(s["regaddr"]), gbool(s["prescanned"]), gbool(s["v4"]), gbool(s["v6"]),
         gN(s["gen"]), gN(s["libver"]), gN(s["transport"]), g_hex(s["covert"]),
         gopt(s["params"] if s["has_params"] else None, gN), gN(int(s["mask"]) if s["mask"].isdigit() else 0))
 
 
-def g_obs(res, shares):
+def g_obs(res, shares, eff_tok=None):
     probes, anns = [], []
     for ev in res["events"]:
         if ev["kind"] == "probe":
@@ -431,7 +465,7 @@ def g_obs(res, shares):
             anns.append(g_regview(ev["reg"]))
     vis = ["(%s, %s, %s)" % (g_hex(norm_hex(v["phantom"])), gN(v["transport"]), g_hex(v["secret"])) for v in res["visible"]]
     return ("{| ob_err := %s; ob_ndrafts := %s; ob_probes := [%s]; ob_shares := [%s]; ob_announces := [%s]; ob_visible := [%s] |}") % (
-        gbool(res["err"]), gN(res["ndrafts"]), "; ".join(probes), "; ".join(g_share(s) for s in shares), "; ".join(anns), "; ".join(vis))
+        gbool(res["err"]), gN(res["ndrafts"]), "; ".join(probes), "; ".join(g_share(s, eff_tok) for s in shares), "; ".join(anns), "; ".join(vis))
 
 
 def g_cfg(cfg, pblock_dump):
@@ -519,7 +553,14 @@ def run(ctx):
                          % (sorted(vis - announced_so_far), sorted(announced_so_far - vis)), dict(info, observed=obs))
             ctx.count((c["kind"], cfg, live, st), nontrivial=True, kind=kind)
             inp = "(Msg %s)" % g_wrapper(st["msg"]) if st["kind"] == "msg" else g_raw(st["raw"])
-            steps_terms.append("(%s, %s, %s)" % (inp, g_oracles(r, live, cfg["geo_fail"]), g_obs(r, shares)))
+            eff = None
+            if cfg.get("real") and st["kind"] == "msg" and st["msg"]["payload"]:
+                pp, rrr = st["msg"]["payload"], st["msg"]["rr"] or {}
+                tk = pp["params"]
+                if rrr.get("params") is not None and not pp["no_overrides"]:
+                    tk = rrr["params"]
+                eff = (tk,)
+            steps_terms.append("(%s, %s, %s)" % (inp, g_oracles(r, live, cfg["geo_fail"], cfg.get("real", False)), g_obs(r, shares, eff)))
         if not bad:
             terms.append(("(%s, [%s])" % (g_cfg(cfg, res["pblocks"][ci]), "; ".join(steps_terms)), info))
     for k in (0, len(cases) // 3, len(cases) - 1):
